@@ -79,8 +79,8 @@ var kindKey = []string{"proposer", "attester", "sync"}
 // ---- the duty assignment: the same function as Flow/Cache.v hasg / hmeta ----
 
 func mix(seed, k, ep, g, v uint64) uint64 {
-	t := ((((seed*31+k)*37+ep)*41+g)*43 + v) % 4294967296
-	return (t*2654435761 + 974711) % 4294967296
+	t := ((((seed*31+k)*37+ep)*41+g)*43 + v) & 0xffffffff
+	return (t*2654435761 + 974711) & 0xffffffff
 }
 
 var cntTab = [3][8]uint64{
@@ -96,8 +96,8 @@ func hasg(seed, nv uint64, k int, ep, g uint64) []duty {
 	for j := uint64(0); j < 3; j++ {
 		for v := uint64(0); v < nv; v++ {
 			h := mix(seed, uint64(k), ep, g, v)
-			if j < cntTab[k][(h/65536)%8] {
-				out = append(out, duty{v, ep*32 + ((h/256)%32+7*j)%32})
+			if j < cntTab[k][(h>>16)&7] {
+				out = append(out, duty{v, ep*32 + ((h>>8)&31+7*j)&31})
 			}
 		}
 	}
@@ -105,7 +105,7 @@ func hasg(seed, nv uint64, k int, ep, g uint64) []duty {
 }
 
 func hmeta(seed uint64, k int, ep, g uint64) uint64 {
-	return 1 + (mix(seed, uint64(k), ep, g, 99)/65536)%1000
+	return 1 + (mix(seed, uint64(k), ep, g, 99)>>16)&1023
 }
 
 // ---- rendering ----
@@ -817,9 +817,9 @@ func corpus() []History {
 	}
 	// N3 (outside the property: not an index set): a request naming an index twice on the amend path
 	hs = append(hs, History{Kind: "dup", Seed: 5, NV: 8, Active0: all, Script: []Op{
-		{Op: "call", C: 0, K: 0, Ep: 1, Idxs: []uint64{0}, Mode: "seq"},
-		{Op: "call", C: 1, K: 0, Ep: 1, Idxs: []uint64{3, 3}, Mode: "seq"},
-		{Op: "call", C: 2, K: 0, Ep: 1, Idxs: []uint64{3}, Mode: "seq"},
+		{Op: "call", C: 0, K: 0, Ep: 1, Idxs: []uint64{3}, Mode: "seq"},
+		{Op: "call", C: 1, K: 0, Ep: 1, Idxs: []uint64{0, 0}, Mode: "seq"},
+		{Op: "call", C: 2, K: 0, Ep: 1, Idxs: []uint64{0}, Mode: "seq"},
 	}})
 	return hs
 }
